@@ -16,14 +16,8 @@ def reported_errors_fields(eng):
     return names
 
 
-def run_format_fn(ctx, eng, nfiles, check_flag=None):
-    """Under-constrained symbolic execution of bin/main.rs::format with `nfiles` input files.
-
-    Environment: load_config / Session::new / Path probes / printing are uninterpreted; format_and_emit_report is a stub that records
-    which Config object the session holds at the call and havocs session.errors (frame condition: formatting an input does not
-    assign session.config). Returns list of dict(path facts)."""
-    name = eng.find('format', free=True)
-    fn = eng.get_fn(name)
+def install_env(eng):
+    """stubs shared by format() and format_string(): format_and_emit_report, load_config, Session::new"""
     cfg_idx = eng.src.field_index('Session', 'config', 'src/lib.rs')
     err_idx = eng.src.field_index('Session', 'errors', 'src/lib.rs')
     flags = reported_errors_fields(eng)
@@ -72,6 +66,17 @@ def run_format_fn(ctx, eng, nfiles, check_flag=None):
     eng.stubs = [x for x in eng.stubs if 'Session::new' not in x[2]]
     eng.stub(r'^Session::<.*>::new$', session_new_stub, 'Session::new(config, out) = session holding that config with all error flags false (ReportedErrors::default)')
 
+    return cfg_idx, err_idx, flags, gfields
+
+
+def run_format_fn(ctx, eng, nfiles, check_flag=None):
+    """Under-constrained symbolic execution of bin/main.rs::format with `nfiles` input files.
+
+    Environment: load_config / Session::new / Path probes / printing are uninterpreted; format_and_emit_report is a stub that records
+    which Config object the session holds at the call and havocs session.errors (frame condition: formatting an input does not
+    assign session.config). Returns list of dict(path facts)."""
+    name = eng.find('format', free=True)
+    cfg_idx, err_idx, flags, gfields = install_env(eng)
     eng.no_inline = [re.compile(r'verify_file_lines|should_print_with_colors|used_options|to_toml')]
     st = State()
     files = Seq([Opaque('PathBuf', 'file%d' % i) for i in range(nfiles)])
@@ -103,3 +108,33 @@ def final_session(eng, st, info):
     for k, v in st.store.items():
         if isinstance(v, Opaque) and v.tag == 'Session':
             yield v
+
+
+def run_format_string_fn(ctx, eng):
+    """bin/main.rs::format_string (standard input) with the same environment as run_format_fn; `check` and `emit_mode` symbolic."""
+    name = eng.find('format_string', free=True)
+    fn = eng.get_fn(name)
+    cfg_idx, err_idx, flags, gfields = install_env(eng)
+    eng.no_inline = [re.compile(r'verify_file_lines|should_print_with_colors|used_options|to_toml')]
+    eng.stubs = [x for x in eng.stubs if 'file_lines().files()' not in x[2]]
+    eng.stub(r'Files<.*> as (std::iter::)?Iterator>::next$', lambda e, s_, a, c: Enum('Option', 0, {}),
+             'config.file_lines().files() yields nothing (the loop only prints a warning per extra file name)')
+    st = State()
+    check = z3.Bool('options.check')
+    gf = eng.src.struct_fields('GetOptsOptions', 'src/bin/main.rs')
+    vals = []
+    for n, ty in gf:
+        if n == 'check':
+            vals.append(check)
+        elif n == 'emit_mode':
+            vals.append(eng.fresh_of_type(st, ty, 'options.emit_mode'))
+        else:
+            vals.append(Opaque('GetOptsOptions.' + n, n))
+    outs = eng.run(name, [eng.fresh_str('stdin_text'), Tup(vals, 'GetOptsOptions')], st)
+    res = []
+    for o in outs:
+        if o.kind == 'unwind':
+            raise Inconclusive('unwinding assertion in format_string(): %s' % (o.info,))
+        tr = o.state.trace
+        res.append({'outcome': o, 'check': check, 'fer': [t for t in tr if t[0] == 'format_and_emit_report'], 'new': [t for t in tr if t[0] == 'Session::new']})
+    return res, dict(cfg_idx=cfg_idx, err_idx=err_idx, flags=flags)
